@@ -515,6 +515,28 @@ class Interp:
                             found = Builtin("defaultdict", _dd)
                         elif st.module == "inspect" and al.name == "isclass":
                             found = self.builtins["isclass"]
+                        elif st.module == "functools" and al.name == "reduce":
+                            _none = object()
+
+                            def _reduce(f, it, init=_none):
+                                items = list(self.iterate(it))
+                                if init is _none:
+                                    if not items:
+                                        raise PyExc("TypeError", "reduce() of empty iterable with no initial value")
+                                    acc, items = items[0], items[1:]
+                                else:
+                                    acc = init
+                                for x in items:
+                                    acc = self.call(f, [acc, x], {})
+                                return acc
+
+                            found = Builtin("functools.reduce", _reduce)
+                        elif st.module == "operator" and al.name in ("getitem", "add", "mul", "sub"):
+                            opn = al.name
+                            if opn == "getitem":
+                                found = Builtin("operator.getitem", lambda a, b: self.call(self.getattr(a, "__getitem__"), [b], {}))
+                            else:
+                                found = Builtin(f"operator.{opn}", lambda a, b, _o=opn: self.binop({"add": ast.Add(), "mul": ast.Mult(), "sub": ast.Sub()}[_o], a, b))
                         elif st.module == "collections" and al.name == "namedtuple":
                             def _nt(tname, fields, defaults=None, **_k):
                                 fl_ = fields.replace(",", " ").split() if isinstance(fields, str) else list(self.iterate(fields))
